@@ -1,7 +1,340 @@
-// Mutators and binary operations (filled in as properties are added).
+// Mutators and binary operations: setters (C05), arbitrary edit sequences (C04), path handle (C10),
+// authority handle (C11), normalisation (C09), resolution (C06), relative_to (C15), suffix/base (C16).
 #![allow(unused, clippy::all)]
 use crate::*;
+use std::panic::{catch_unwind, AssertUnwindSafe};
+
+pub mod u {
+	use iref::uri::*;
+	pub fn refbuf(b: &[u8]) -> Option<iref::UriRefBuf> { iref::UriRefBuf::new(b.to_vec()).ok() }
+	pub fn absbuf(b: &[u8]) -> Option<iref::UriBuf> { iref::UriBuf::new(b.to_vec()).ok() }
+	pub fn rref(b: &[u8]) -> Option<&iref::UriRef> { iref::UriRef::new(b).ok() }
+	pub fn abs(b: &[u8]) -> Option<&iref::Uri> { iref::Uri::new(b).ok() }
+	pub fn scheme(b: &[u8]) -> Option<&Scheme> { Scheme::new(b).ok() }
+	pub fn authority(b: &[u8]) -> Option<&Authority> { Authority::new(b).ok() }
+	pub fn path(b: &[u8]) -> Option<&Path> { Path::new(b).ok() }
+	pub fn pathbuf(b: &[u8]) -> Option<PathBuf> { PathBuf::new(b.to_vec()).ok() }
+	pub fn query(b: &[u8]) -> Option<&Query> { Query::new(b).ok() }
+	pub fn fragment(b: &[u8]) -> Option<&Fragment> { Fragment::new(b).ok() }
+	pub fn segment(b: &[u8]) -> Option<&Segment> { Segment::new(b).ok() }
+	pub fn userinfo(b: &[u8]) -> Option<&UserInfo> { UserInfo::new(b).ok() }
+	pub fn host(b: &[u8]) -> Option<&Host> { Host::new(b).ok() }
+	pub fn port(b: &[u8]) -> Option<&Port> { Port::new(b).ok() }
+}
+pub mod i {
+	use iref::iri::*;
+	fn s(b: &[u8]) -> Option<&str> { std::str::from_utf8(b).ok() }
+	pub fn refbuf(b: &[u8]) -> Option<iref::IriRefBuf> { iref::IriRefBuf::new(s(b)?.to_string()).ok() }
+	pub fn absbuf(b: &[u8]) -> Option<iref::IriBuf> { iref::IriBuf::new(s(b)?.to_string()).ok() }
+	pub fn rref(b: &[u8]) -> Option<&iref::IriRef> { iref::IriRef::new(s(b)?).ok() }
+	pub fn abs(b: &[u8]) -> Option<&iref::Iri> { iref::Iri::new(s(b)?).ok() }
+	pub fn scheme(b: &[u8]) -> Option<&Scheme> { Scheme::new(b).ok() }
+	pub fn authority(b: &[u8]) -> Option<&Authority> { Authority::new(s(b)?).ok() }
+	pub fn path(b: &[u8]) -> Option<&Path> { Path::new(s(b)?).ok() }
+	pub fn pathbuf(b: &[u8]) -> Option<PathBuf> { PathBuf::new(s(b)?.to_string()).ok() }
+	pub fn query(b: &[u8]) -> Option<&Query> { Query::new(s(b)?).ok() }
+	pub fn fragment(b: &[u8]) -> Option<&Fragment> { Fragment::new(s(b)?).ok() }
+	pub fn segment(b: &[u8]) -> Option<&Segment> { Segment::new(s(b)?).ok() }
+	pub fn userinfo(b: &[u8]) -> Option<&UserInfo> { UserInfo::new(s(b)?).ok() }
+	pub fn host(b: &[u8]) -> Option<&Host> { Host::new(s(b)?).ok() }
+	pub fn port(b: &[u8]) -> Option<&Port> { Port::new(b).ok() }
+}
+
+// text of the buffer, whether it is well-formed UTF-8 and re-parses as the same type, and the five accessors
+macro_rules! snapshot {
+	($m:ident, $reparse:ident, $buf:expr) => {{
+		let b = $buf;
+		let bytes = b.as_bytes().to_vec();
+		let valid = std::str::from_utf8(&bytes).is_ok() && $m::$reparse(&bytes).is_some();
+		format!(
+			"{}\t{}\t{}\t{}\t{}\t{}\t{}",
+			hex(&bytes),
+			valid as u8,
+			ohex(sch_of!($reparse, b)),
+			ohex(b.authority().map(|x| x.as_bytes())),
+			hex(b.path().as_bytes()),
+			ohex(b.query().map(|x| x.as_bytes())),
+			ohex(b.fragment().map(|x| x.as_bytes()))
+		)
+	}};
+}
+macro_rules! sch_of {
+	(refbuf, $b:expr) => { $b.scheme().map(|x| x.as_bytes()) };
+	(absbuf, $b:expr) => { Some($b.scheme().as_bytes()) };
+}
+macro_rules! set_scheme {
+	(refbuf, $m:ident, $b:expr, $v:expr) => {{ let v: &Option<Vec<u8>> = $v; $b.set_scheme(v.as_ref().map(|x| $m::scheme(x).expect("arg"))) }};
+	(absbuf, $m:ident, $b:expr, $v:expr) => {{ let v: &Option<Vec<u8>> = $v; $b.set_scheme($m::scheme(v.as_ref().expect("arg")).expect("arg")) }};
+}
+
+// one mutation step on a reference buffer; op = "xx:<hex|~>" or "xx"
+macro_rules! apply_op {
+	($m:ident, $ctor:ident, $b:expr, $op:expr) => {{
+		let op: &str = $op;
+		let (code, arg) = match op.find(':') { Some(k) => (&op[..k], Some(&op[k + 1..])), None => (op, None) };
+		let oarg: Option<Vec<u8>> = arg.and_then(|a| opt_arg(a));
+		let barg: Vec<u8> = oarg.clone().unwrap_or_default();
+		match code {
+			"ss" => set_scheme!($ctor, $m, $b, &oarg),
+			"sa" => $b.set_authority(oarg.as_ref().map(|x| $m::authority(x).expect("arg"))),
+			"sp" => $b.set_path($m::path(&barg).expect("arg")),
+			"sq" => $b.set_query(oarg.as_ref().map(|x| $m::query(x).expect("arg"))),
+			"sf" => $b.set_fragment(oarg.as_ref().map(|x| $m::fragment(x).expect("arg"))),
+			"au" => { if let Some(mut a) = $b.authority_mut() { a.set_userinfo(oarg.as_ref().map(|x| $m::userinfo(x).expect("arg"))) } }
+			"ah" => { if let Some(mut a) = $b.authority_mut() { a.set_host($m::host(&barg).expect("arg")) } }
+			"ap" => { if let Some(mut a) = $b.authority_mut() { a.set_port(oarg.as_ref().map(|x| $m::port(x).expect("arg"))) } }
+			"pp" => $b.path_mut().push($m::segment(&barg).expect("arg")),
+			"po" => $b.path_mut().pop(),
+			"pc" => $b.path_mut().clear(),
+			"ps" => $b.path_mut().symbolic_push($m::segment(&barg).expect("arg")),
+			"pa" => $b.path_mut().symbolic_append($m::path(&barg).expect("arg").segments()),
+			"pn" => $b.path_mut().normalize(),
+			_ => panic!("op {}", code),
+		}
+	}};
+}
+
+// set <kind> <buf> <op>: one setter (or any single op) on a fresh buffer; snapshot before and after
+macro_rules! run_ops {
+	($m:ident, $ctor:ident, $f:expr, $each:expr) => {{
+		let f: &[&str] = $f;
+		let mut b = match $m::$ctor(&unhex(f[2])) { Some(b) => b, None => return Some("ERR".into()) };
+		let mut out: Vec<String> = vec![];
+		if $each { out.push(snapshot!($m, $ctor, &b)); }
+		for op in &f[3..] {
+			let r = catch_unwind(AssertUnwindSafe(|| { apply_op!($m, $ctor, b, op); }));
+			if r.is_err() { out.push("PANIC".into()); return Some(out.join("\t|\t")); }
+			if $each { out.push(snapshot!($m, $ctor, &b)); }
+		}
+		if !$each { out.push(snapshot!($m, $ctor, &b)); }
+		out.join("\t|\t")
+	}};
+}
+
+// pathops <kind> <buf> <ops..>: edits through ONE path handle; after each edit the handle's view
+macro_rules! path_handle {
+	($m:ident, $ctor:ident, $f:expr) => {{
+		let f: &[&str] = $f;
+		let mut b = match $m::$ctor(&unhex(f[2])) { Some(b) => b, None => return Some("ERR".into()) };
+		let mut views: Vec<String> = vec![];
+		{
+			let mut p = b.path_mut();
+			for op in &f[3..] {
+				let (code, arg) = match op.find(':') { Some(k) => (&op[..k], Some(&op[k + 1..])), None => (*op, None) };
+				let barg: Vec<u8> = arg.and_then(|a| opt_arg(a)).unwrap_or_default();
+				match code {
+					"pp" => p.push($m::segment(&barg).expect("arg")),
+					"po" => p.pop(),
+					"pc" => p.clear(),
+					"ps" => p.symbolic_push($m::segment(&barg).expect("arg")),
+					"pa" => p.symbolic_append($m::path(&barg).expect("arg").segments()),
+					"pn" => p.normalize(),
+					_ => panic!("op"),
+				}
+				let segs: Vec<String> = p.segments().map(|s| hex(s.as_bytes())).collect();
+				views.push(format!("{}/{}", hex(p.as_bytes()), segs.join(",")));
+			}
+		}
+		format!("{}\t|\t{}", views.join("\t"), snapshot!($m, $ctor, &b))
+	}};
+}
+macro_rules! pathbuf_handle {
+	($m:ident, $f:expr) => {{
+		let f: &[&str] = $f;
+		let mut b = match $m::pathbuf(&unhex(f[2])) { Some(b) => b, None => return Some("ERR".into()) };
+		let mut views: Vec<String> = vec![];
+		for op in &f[3..] {
+			let (code, arg) = match op.find(':') { Some(k) => (&op[..k], Some(&op[k + 1..])), None => (*op, None) };
+			let barg: Vec<u8> = arg.and_then(|a| opt_arg(a)).unwrap_or_default();
+			match code {
+				"pp" => b.push($m::segment(&barg).expect("arg")),
+				"po" => b.pop(),
+				"pc" => b.clear(),
+				"ps" => b.symbolic_push($m::segment(&barg).expect("arg")),
+				"pa" => b.symbolic_append($m::path(&barg).expect("arg").segments()),
+				"pn" => b.normalize(),
+				_ => panic!("op"),
+			}
+			let segs: Vec<String> = b.segments().map(|s| hex(s.as_bytes())).collect();
+			views.push(format!("{}/{}", hex(b.as_bytes()), segs.join(",")));
+		}
+		let bytes = b.as_bytes().to_vec();
+		let valid = std::str::from_utf8(&bytes).is_ok() && $m::path(&bytes).is_some();
+		format!("{}\t|\t{}\t{}", views.join("\t"), hex(&bytes), valid as u8)
+	}};
+}
+
+// authops <kind> <buf> <ops..>: edits through ONE authority handle; after each call the handle's view
+macro_rules! auth_handle {
+	($m:ident, $ctor:ident, $f:expr) => {{
+		let f: &[&str] = $f;
+		let mut b = match $m::$ctor(&unhex(f[2])) { Some(b) => b, None => return Some("ERR".into()) };
+		let mut views: Vec<String> = vec![];
+		let mut last: Option<Vec<u8>> = None;
+		{
+			let mut a = match b.authority_mut() { Some(a) => a, None => return Some("NOAUTH".into()) };
+			for op in &f[3..] {
+				let (code, arg) = match op.find(':') { Some(k) => (&op[..k], Some(&op[k + 1..])), None => (*op, None) };
+				let oarg: Option<Vec<u8>> = arg.and_then(|a| opt_arg(a));
+				let barg: Vec<u8> = oarg.clone().unwrap_or_default();
+				match code {
+					"au" => a.set_userinfo(oarg.as_ref().map(|x| $m::userinfo(x).expect("arg"))),
+					"ah" => a.set_host($m::host(&barg).expect("arg")),
+					"ap" => a.set_port(oarg.as_ref().map(|x| $m::port(x).expect("arg"))),
+					_ => panic!("op"),
+				}
+				let v = a.as_authority();
+				views.push(format!("{}/{}/{}/{}", hex(v.as_bytes()), ohex(v.user_info().map(|x| x.as_bytes())), hex(v.host().as_bytes()), ohex(v.port().map(|x| x.as_bytes()))));
+			}
+			last = Some(a.into_authority().as_bytes().to_vec());
+		}
+		format!("{}\t|\t{}\t|\t{}", views.join("\t"), ohex(last.as_deref()), snapshot!($m, $ctor, &b))
+	}};
+}
+
+// norm <fam> <path>: normalized() copy, normalized_segments(), PathBuf::normalize(), idempotence
+macro_rules! norm_path {
+	($m:ident, $f:expr) => {{
+		let f: &[&str] = $f;
+		let inp = unhex(f[2]);
+		let p = match $m::path(&inp) { Some(p) => p, None => return Some("ERR".into()) };
+		let n = p.normalized();
+		let nn = n.normalized();
+		let ns: Vec<String> = p.normalized_segments().map(|s| hex(s.as_bytes())).collect();
+		let mut pb = $m::pathbuf(&inp).unwrap();
+		pb.normalize();
+		let once = pb.as_bytes().to_vec();
+		pb.normalize();
+		format!("{}\t{}\t{}\t{}\t{}\t{}\t{}", hex(n.as_bytes()), $m::path(n.as_bytes()).is_some() as u8, hex(nn.as_bytes()), ns.join(","), hex(&once),
+			$m::path(&once).is_some() as u8, hex(pb.as_bytes()))
+	}};
+}
+
+// resolve <fam> <base> <ref>: by-reference, in-place and by-value entry points
+macro_rules! resolve3 {
+	($m:ident, $f:expr) => {{
+		let f: &[&str] = $f;
+		let bb = unhex(f[2]); let rb = unhex(f[3]);
+		let base = match $m::abs(&bb) { Some(b) => b, None => return Some("ERR-base".into()) };
+		let r = match $m::rref(&rb) { Some(r) => r, None => return Some("ERR-ref".into()) };
+		let a = catch_unwind(AssertUnwindSafe(|| r.resolved(base).as_bytes().to_vec()));
+		let b = catch_unwind(AssertUnwindSafe(|| { let mut x = $m::refbuf(&rb).unwrap(); x.resolve(base); x.as_bytes().to_vec() }));
+		let c = catch_unwind(AssertUnwindSafe(|| $m::refbuf(&rb).unwrap().into_resolved(base).as_bytes().to_vec()));
+		let show = |x: &std::thread::Result<Vec<u8>>| match x { Ok(v) => hex(v), Err(_) => "PANIC".to_string() };
+		let valid = match &a { Ok(v) => (std::str::from_utf8(v).is_ok() && $m::abs(v).is_some()) as u8, Err(_) => 0 };
+		format!("{}\t{}\t{}\t{}\t{}\t{}", show(&a), show(&b), show(&c), valid, (base.as_bytes() == &bb[..]) as u8, (r.as_bytes() == &rb[..]) as u8)
+	}};
+}
+
+// relto <fam> <a> <b>: a.relative_to(b), its validity, resolved back against b, and == a
+macro_rules! relto {
+	($m:ident, $f:expr) => {{
+		let f: &[&str] = $f;
+		let ab = unhex(f[2]); let bb = unhex(f[3]);
+		let a = match $m::abs(&ab) { Some(x) => x, None => return Some("ERR-a".into()) };
+		let b = match $m::abs(&bb) { Some(x) => x, None => return Some("ERR-b".into()) };
+		let r = a.relative_to(b);
+		let rv = r.as_bytes().to_vec();
+		let valid = std::str::from_utf8(&rv).is_ok() && $m::rref(&rv).is_some();
+		let back = catch_unwind(AssertUnwindSafe(|| r.resolved(b).as_bytes().to_vec()));
+		let (backs, eq) = match &back { Ok(v) => (hex(v), match $m::abs(v) { Some(x) => (catch_unwind(AssertUnwindSafe(|| x == a)).map(|e| e as u8 + 48).unwrap_or(b'P') as char).to_string(), None => "X".into() }), Err(_) => ("PANIC".to_string(), "P".to_string()) };
+		// same through the reference types
+		let r2 = a.as_iri_ref_like().relative_to(b.as_iri_ref_like());
+		format!("{}\t{}\t{}\t{}\t{}\t{}", hex(&rv), valid as u8, backs, eq, (r2.as_bytes() == &rv[..]) as u8, (a.as_bytes() == &ab[..] && b.as_bytes() == &bb[..]) as u8)
+	}};
+}
+trait RefLike { type R: ?Sized; fn as_iri_ref_like(&self) -> &Self::R; }
+impl RefLike for iref::Uri { type R = iref::UriRef; fn as_iri_ref_like(&self) -> &iref::UriRef { self.as_uri_ref() } }
+impl RefLike for iref::Iri { type R = iref::IriRef; fn as_iri_ref_like(&self) -> &iref::IriRef { self.as_iri_ref() } }
+
+// suffix <fam> <a> <prefix> ; base <fam> <a> ; psuffix <fam> <path> <prefix>
+macro_rules! suffix_ops {
+	($m:ident, $f:expr) => {{
+		let f: &[&str] = $f;
+		match f[0] {
+			"suffix" => {
+				let ab = unhex(f[2]); let pb = unhex(f[3]);
+				let a = match $m::rref(&ab) { Some(x) => x, None => return Some("ERR-a".into()) };
+				let p = match $m::rref(&pb) { Some(x) => x, None => return Some("ERR-p".into()) };
+				let r1 = match a.suffix(p) { None => "NONE".to_string(), Some((s, q, fr)) => format!("{}\t{}\t{}\t{}", hex(s.as_bytes()), $m::path(s.as_bytes()).is_some() as u8, ohex(q.map(|x| x.as_bytes())), ohex(fr.map(|x| x.as_bytes()))) };
+				// the same through Uri/Iri when both have a scheme
+				let r2 = match ($m::abs(&ab), $m::abs(&pb)) { (Some(x), Some(y)) => match x.suffix(y) { None => "NONE".to_string(), Some((s, q, fr)) => format!("{}\t{}\t{}\t{}", hex(s.as_bytes()), $m::path(s.as_bytes()).is_some() as u8, ohex(q.map(|x| x.as_bytes())), ohex(fr.map(|x| x.as_bytes()))) }, _ => "-".to_string() };
+				format!("{}\t|\t{}", r1, r2)
+			}
+			"psuffix" => {
+				let ab = unhex(f[2]); let pb = unhex(f[3]);
+				let a = match $m::path(&ab) { Some(x) => x, None => return Some("ERR-a".into()) };
+				let p = match $m::path(&pb) { Some(x) => x, None => return Some("ERR-p".into()) };
+				match a.suffix(p) { None => "NONE".to_string(), Some(s) => format!("{}\t{}", hex(s.as_bytes()), $m::path(s.as_bytes()).is_some() as u8) }
+			}
+			"base" => {
+				let ab = unhex(f[2]);
+				let a = match $m::rref(&ab) { Some(x) => x, None => return Some("ERR-a".into()) };
+				let a0 = allocs();
+				let b = a.base();
+				let a1 = allocs();
+				let bv = b.as_bytes();
+				let r2 = match $m::abs(&ab) { Some(x) => { let y = x.base(); format!("{}\t{}", rng(&ab, y.as_bytes()), $m::abs(y.as_bytes()).is_some() as u8) } None => "-".to_string() };
+				format!("{}\t{}\t{}\t{}\t|\t{}", rng(&ab, bv), $m::rref(bv).is_some() as u8, (b.query().is_none() && b.fragment().is_none()) as u8, a1 - a0, r2)
+			}
+			_ => unreachable!(),
+		}
+	}};
+}
+
+// refnorm <kind> <ref>: path_mut().normalize() inside a reference, twice (idempotence)
+macro_rules! refnorm {
+	($m:ident, $ctor:ident, $f:expr) => {{
+		let f: &[&str] = $f;
+		let mut b = match $m::$ctor(&unhex(f[2])) { Some(b) => b, None => return Some("ERR".into()) };
+		let before = snapshot!($m, $ctor, &b);
+		b.path_mut().normalize();
+		let once = snapshot!($m, $ctor, &b);
+		b.path_mut().normalize();
+		let twice = snapshot!($m, $ctor, &b);
+		format!("{}\t|\t{}\t|\t{}", before, once, twice)
+	}};
+}
 
 pub fn run(f: &[&str]) -> Option<String> {
-	None
+	Some(match f[0] {
+		"ops" | "set" => {
+			let each = f[0] == "set" || true;
+			match f[1] {
+				"uriref" => run_ops!(u, refbuf, f, each),
+				"uri" => run_ops!(u, absbuf, f, each),
+				"iriref" => run_ops!(i, refbuf, f, each),
+				"iri" => run_ops!(i, absbuf, f, each),
+				_ => panic!("kind"),
+			}
+		}
+		"pathops" => match f[1] {
+			"uriref" => path_handle!(u, refbuf, f),
+			"uri" => path_handle!(u, absbuf, f),
+			"iriref" => path_handle!(i, refbuf, f),
+			"iri" => path_handle!(i, absbuf, f),
+			"upath" => pathbuf_handle!(u, f),
+			"ipath" => pathbuf_handle!(i, f),
+			_ => panic!("kind"),
+		},
+		"authops" => match f[1] {
+			"uriref" => auth_handle!(u, refbuf, f),
+			"uri" => auth_handle!(u, absbuf, f),
+			"iriref" => auth_handle!(i, refbuf, f),
+			"iri" => auth_handle!(i, absbuf, f),
+			_ => panic!("kind"),
+		},
+		"norm" => match f[1] { "uri" => norm_path!(u, f), "iri" => norm_path!(i, f), _ => panic!("fam") },
+		"refnorm" => match f[1] {
+			"uriref" => refnorm!(u, refbuf, f),
+			"uri" => refnorm!(u, absbuf, f),
+			"iriref" => refnorm!(i, refbuf, f),
+			"iri" => refnorm!(i, absbuf, f),
+			_ => panic!("kind"),
+		},
+		"resolve" => match f[1] { "uri" => resolve3!(u, f), "iri" => resolve3!(i, f), _ => panic!("fam") },
+		"relto" => match f[1] { "uri" => relto!(u, f), "iri" => relto!(i, f), _ => panic!("fam") },
+		"suffix" | "psuffix" | "base" => match f[1] { "uri" => suffix_ops!(u, f), "iri" => suffix_ops!(i, f), _ => panic!("fam") },
+		_ => return None,
+	})
 }
